@@ -196,9 +196,11 @@ def main():
                 cases.append(c)
     for f in repaired_kf:
         for st in ("indexed", "linear"):
-            c = json.loads(json.dumps(f["witness"]))
-            c.update(state=st, cid="fixed:%s:%s" % (f["id"], st), group=c.get("group", "witness"))
-            cases.append(c)
+            for r in range(3 if f.get("class") == "store" else 1):
+                c = json.loads(json.dumps(f["witness"]))
+                # a repaired memory/storage inversion is judged like any small history: results linearizable, final memory = final storage
+                c.update(state=st, cid="fixed:%s:%s:%d" % (f["id"], st, r), group=c.get("group", "facts" if f.get("class") == "store" else "witness"))
+                cases.append(c)
     # one client is enough for concurrency inside a location: the actions of one event run concurrently and share the request's
     # context; with hooks installed (every location of a sys.System) each Env.AddFact runs a hook under the held state lock
     for st in ("indexed", "linear"):
@@ -321,6 +323,7 @@ def main():
                  if c.get("group") in ("facts", "rules") and isinstance(results.get(c["cid"]), dict) and "clients" in results[c["cid"]]]
     lin_stats = collections.Counter()
     functional_known = collections.defaultdict(list)
+    store_tolerated = not {"C12-add-add-store-inversion-indexed", "C12-add-add-store-inversion-linear"} <= repaired
     if mdl and lin_items:
         verdict = g.lin_search(lin_items, mdl)
         def judge(c, res, v, attempt=0):
@@ -346,7 +349,9 @@ def main():
             diff_ids |= set(k for k in set(mf.get("store", {})) | set(obs.get("store", {})) if mf.get("store", {}).get(k) != obs.get("store", {}).get(k))
             # a property fact "!<id>.<prop>" is written by EnableRule/RemRule of <id>
             base = set((k[1:].rsplit(".", 1)[0] if k.startswith("!") else k) for k in diff_ids)
-            if diff_ids and (base <= ovw or (c.get("group") == "rules" and g.composite_overlap(c, res))):
+            # (overlapping writers of one id used to leave memory and storage with different values: tolerated only while those
+            # findings are listed; after their repair memory_store_agree covers any number of writers)
+            if diff_ids and ((store_tolerated and base <= ovw) or (c.get("group") == "rules" and g.composite_overlap(c, res))):
                 lin_stats["final_differs_known_overlapping_writers"] += 1
                 functional_known["store"].append(cid)
                 return
@@ -407,7 +412,7 @@ def main():
     ck.cov["distribution"] = dict(dist)
     for c in cases[:200]:
         if c.get("group") in ("facts", "rules"):
-            ck.sample({"state": c["state"], "setup": c["setup"], "clients": c["clients"]}, limit=3)
+            ck.sample({"state": c["state"], "setup": c.get("setup"), "clients": c["clients"]}, limit=3)
 
     # ---- (9) static side broken and nothing concrete found
     if proof_broken and ck.violations == 0:
